@@ -30,6 +30,8 @@ AccBad(r) ==
           \/ x.rawnum.some # (v.t = "num") \/ (x.rawnum.some /\ x.rawnum.raw # v.lit)
           \* serialises back verbatim; a clone taken after the decoded form was cached may re-encode the
           \* text, it must still denote the same value
+          \* Display prints what serialisation writes
+          \/ (x.ser.some /\ x.disp # x.ser.b)
           \/ ~x.ser.some
           \/ (src # "olv_clone" /\ x.ser.b # SubSeq(r.b, v.a + 1, v.z))
           \/ (src = "olv_clone" /\ LET cr == BRun(x.ser.b, FALSE) IN ~(cr.s.m = "end" /\ Strip(cr.root) = Strip(v)))
